@@ -6,6 +6,7 @@ import sqlalchemy as sqa
 from pydiverse.common import (
     Date,
     Datetime,
+    Duration,
     Float,
     String,
 )
@@ -19,6 +20,7 @@ from pydiverse.transform._internal.util.warnings import warn_non_standard
 
 class SqliteImpl(SqlImpl):
     backend_name = "sqlite"
+    unsupported_literal_types = (Duration,)  # there is no interval type
 
     @classmethod
     def inf(cls):
